@@ -52,7 +52,7 @@ type Op struct {
 	PV   uint64 `json:"pv,omitempty"`
 	M    string `json:"m,omitempty"`
 	MV   uint64 `json:"mv,omitempty"`
-	Ms   int64  `json:"ms,omitempty"` // jump length
+	Ms   int64  `json:"ms,omitempty"`  // jump length
 	Rep  int    `json:"rep,omitempty"` // the op is issued Rep times in a row (long histories stay small on disk)
 }
 
